@@ -52,7 +52,12 @@ def enc_octet(b):
 
 
 def enc_bitstring(b, unused=0):
-    return enc_tlv(0x03, bytes([unused]) + bytes(b))
+    b = bytes(b)
+    if not (isinstance(unused, int) and 0 <= unused <= 7):
+        raise DerError("unused bits must be 0..7")
+    if unused and (not b or b[-1] & ((1 << unused) - 1)):
+        raise DerError("unused bits without (zero) padding bits")
+    return enc_tlv(0x03, bytes([unused]) + b)
 
 
 def enc_seq(*parts):
